@@ -442,7 +442,8 @@ class XPathContext:
         forward axis if no axis is active, otherwise tests the current item.
         """
         if self.axis is not None:
-            if isinstance(self.item, (AttributeNode, ElementNode)):
+            # The principal node kind is attribute for the attribute axis, element for others
+            if isinstance(self.item, AttributeNode if self.axis == 'attribute' else ElementNode):
                 if self.item.match_name(name, default_namespace):
                     yield self.item
         elif isinstance(self.item, (ElementNode, DocumentNode)):
